@@ -19,21 +19,23 @@ QUICK = [
     dict(D=1, NCUTSET=(2, 3), NCV=3, GRIDN=3, NPTSSET=(2,), DUPS=True, frac=1.0, SUB=1),
 ]
 THOROUGH = [
-    dict(D=1, NCUTSET=(1, 2, 3), NCV=5, GRIDN=4, NPTSSET=(1, 2, 3, 4), frac=1.0, SUB=1),
-    dict(D=2, NCUTSET=(1, 2), NCV=4, GRIDN=3, NPTSSET=(2,), frac=1.0, SUB=1),
-    dict(D=2, NCUTSET=(1, 2), NCV=5, GRIDN=4, NPTSSET=(2, 3), frac=1.0, SUB=61),
-    dict(D=3, NCUTSET=(1, 2), NCV=3, GRIDN=3, NPTSSET=(2,), frac=1.0, SUB=13),
-    dict(D=2, NCUTSET=(3,), NCV=4, GRIDN=3, NPTSSET=(2, 3), frac=1.0, SUB=47),
-    dict(D=3, NCUTSET=(3,), NCV=4, GRIDN=3, NPTSSET=(2,), frac=0.125, SUB=211),
-    dict(D=3, NCUTSET=(2,), NCV=4, GRIDN=3, NPTSSET=(3,), frac=0.5, SUB=4001),
-    dict(D=2, NCUTSET=(2, 3), NCV=3, GRIDN=3, NPTSSET=(2,), DUPS=True, frac=1.0, SUB=7),
+    dict(D=1, NCUTSET=(1, 2, 3), NCV=5, GRIDN=4, NPTSSET=(1, 2, 3), frac=1.0, SUB=1),
+    dict(D=1, NCUTSET=(1, 2, 3), NCV=5, GRIDN=4, NPTSSET=(4,), frac=1.0, SUB=4),
+    dict(D=2, NCUTSET=(1, 2), NCV=4, GRIDN=3, NPTSSET=(2,), frac=1.0, SUB=2),
+    dict(D=2, NCUTSET=(1, 2), NCV=5, GRIDN=4, NPTSSET=(2, 3), frac=1.0, SUB=251),
+    dict(D=3, NCUTSET=(1, 2), NCV=3, GRIDN=3, NPTSSET=(2,), frac=1.0, SUB=37),
+    dict(D=2, NCUTSET=(3,), NCV=4, GRIDN=3, NPTSSET=(2, 3), frac=1.0, SUB=97),
+    dict(D=3, NCUTSET=(3,), NCV=4, GRIDN=3, NPTSSET=(2,), frac=0.0625, SUB=211),
+    dict(D=3, NCUTSET=(2,), NCV=4, GRIDN=3, NPTSSET=(2,), frac=0.25, SUB=151),
+    dict(D=2, NCUTSET=(2, 3), NCV=3, GRIDN=3, NPTSSET=(2,), DUPS=True, frac=1.0, SUB=13),
 ]
 
 
 def _size(h, x=()):
-    """Order used to pick the input shown for a kind of disagreement (non-constant columns first)."""
+    """Order used to pick the input shown for a kind of disagreement (non-constant columns, data off the cut points first)."""
     degenerate = len(x) < 2 or any(len({p[f] for p in x}) < 2 for f in h["used"])      # a constant used column
-    return (h["d"], h["ncuts"], degenerate, len(x), sum(abs(v) for c in h["cuts"] for v in c) + sum(abs(v) for p in x for v in p))
+    touches = any(p[f] in h["cuts"][f] for p in x for f in h["used"])                   # a datum on a cut point
+    return (h["d"], h["ncuts"], degenerate, touches, len(x), sum(abs(v) for c in h["cuts"] for v in c) + sum(abs(v) for p in x for v in p))
 
 
 def _hdesc(h):
@@ -123,9 +125,9 @@ def check_model(rep, dis, rec, conf):
     return model
 
 
-def _check_inert(dis, model, h, X, rng, rp, stage):
+def _check_inert(dis, model, h, X, rng, rp, stage, kinds=("normal", "huge", "roll")):
     base_p, base_l = model.predict_proba(X), model.predict(X)
-    for kind, Y in dg.perturbations(X, h["masked"], rng):
+    for kind, Y in dg.perturbations(X, h["masked"], rng, kinds):
         p, l = model.predict_proba(Y), model.predict(Y)
         if not (np.array_equal(p, base_p) and np.array_equal(l, base_l)):
             i = int(np.flatnonzero(np.any(p != base_p, axis=1) | (l != base_l))[0])
@@ -175,7 +177,7 @@ def check_case(rep, dis, rec, model, conf):
             dis.add(("cell", "prediction"), _size(h, x), f"{_hdesc(h)} X={X.tolist()} temperature={dg.COLD}: predict_proba "
                     f"{P.tolist()} but the cells' leaves predict {ref.tolist()}", rp)
     if h["masked"]:
-        _check_inert(dis, model, h, X, rng, rp, "installed")
+        _check_inert(dis, model, h, X, rng, rp, "installed", kinds=("normal",))
     # (v) find_active_points on the prediction data and on data touching the cut points
     for xa, want in [(x, rec["active"])] + [(s["xa"], s["active"]) for s in rec["shifted"]]:
         XA = dg.to_real(xa)
